@@ -636,7 +636,7 @@ def check_C16(run):
 # ------------------------------------------------------------------ C06
 
 def c06_paths(rng):
-    names = ['build', 'builder.txt', 'dist', 'mydist', 'distx', 'a', 'b', 'ab', 'a.b', 'src', 'x y', 'é', 'A', 'Build', 'ok.txt', 'c_d', 'a-1']
+    names = ['build', 'builder.txt', 'dist', 'mydist', 'distx', 'a', 'b', 'ab', 'a.b', 'src', 'x y', 'é', 'A', 'Build', 'ok.txt', 'c_d', 'a-1', 'new\nline', 'a\nb', '\n', 'tab\there', 'b\r']
     paths = set()
     for _ in range(rng.randint(3, 8)):
         p = '/'.join(rng.choice(names) for _ in range(rng.randint(1, 3)))
@@ -695,7 +695,12 @@ def check_C06(run):
         run.case(('filt', tuple(f), tuple(p)), nt, sample=dict(layer='L1', filters=f, paths=p, impl=iv, oracle=ov) if nt else None)
         run.count('filters:' + ('in-subset' if asts is not None else 'out-of-subset') + (':err' if iv in ('err', 'panic') else ''))
         run.cov['traces_validated_against_impl'] += 1
-        if iv == 'panic' or (ov != 'err' and iv != 'err' and iv != ov):
+        rv = ans.split(' remote=')[1] if ' remote=' in ans else iv
+        if rv != iv:
+            bad = [p[k] for k in range(len(p)) if k < len(iv) and k < len(rv) and iv[k] != rv[k]]
+            oracle_fail.append(dict(filters=f, paths=p, differing_paths=bad, impl=iv, verdicts_after_the_wire=rv, oracle_verdicts=ov, model=model.get(i),
+                                    what='a remote doer (Filters after bincode) reaches another verdict than a local one for the same relative path'))
+        elif iv == 'panic' or (ov != 'err' and iv != 'err' and iv != ov):
             bad = [p[k] for k in range(len(p)) if k < len(iv) and k < len(ov) and iv[k] != ov[k]]
             oracle_fail.append(dict(filters=f, paths=p, differing_paths=bad, impl=iv, oracle_verdicts=ov, model=model.get(i)))
         elif i in model and iv != 'err' and model[i] != 'impl=' + iv:
